@@ -451,6 +451,7 @@ func familySession(t *testing.T) {
 	synctest.Test(t, func(t *testing.T) {
 		defer guard()
 		if T.prop == "C09" {
+			configGate()
 			contentSweep(rng)
 			configuredKeys()
 		}
